@@ -27,6 +27,9 @@ STDLIB_AXIOMS = {
     'functional_extensionality_dep', 'FunctionalExtensionality.functional_extensionality_dep',
     'classic', 'Classical_Prop.classic', 'proof_irrelevance', 'JMeq_eq', 'JMeq.JMeq_eq',
     'Eqdep.Eq_rect_eq.eq_rect_eq', 'eq_rect_eq', 'propositional_extensionality',
+    # the real-number axioms of the standard library (loaded with Lra/Psatz; coqchk -o lists them for the whole closure)
+    'Coq.Reals.ClassicalDedekindReals.sig_forall_dec', 'sig_forall_dec', 'Coq.Reals.ClassicalDedekindReals.sig_not_dec', 'sig_not_dec',
+    'Coq.Logic.FunctionalExtensionality.functional_extensionality_dep', 'Coq.Logic.Classical_Prop.classic',
 }
 
 class CheckError(Exception):
